@@ -8,7 +8,8 @@ CONSTANTS
   HdrKinds = {"plain", "mixedcase", "empty", "multi", "long"}
   Statuses = {200, 204, 404, 500}
   RespBodyLens = {0, 5, 65536}
+  Retries = {0, 1}
   Defects = {}
 SPECIFICATION Spec
-INVARIANTS UriPreserved EmitCase
+INVARIANTS UriPreserved BodyPreserved EmitCase
 CHECK_DEADLOCK FALSE
